@@ -12,7 +12,7 @@ import core
 import renderlib as R
 
 LEVEL = "proof"
-EXTRA_TARGETS = ["model/RenderTie.vo"]
+EXTRA_TARGETS = ["model/RenderTie.vo", "model/RenderDataTie.vo"]
 THRESHOLDS = [0.0, 1 / 255, 0.5, 254 / 255, 0.999]
 
 
@@ -103,6 +103,27 @@ def identity_check(case, res):
     return None
 
 
+RD_HEADER = ("From Coq Require Import List ZArith Bool.\nImport ListNotations.\n"
+             "From TI Require Import lib.Term model.Block model.RenderData model.RenderDataTie.\nOpen Scope Z_scope.\n")
+
+
+def rd_term(case, res):
+    """Coq term of the render-data case (source pixels -> data handed to the renderer)."""
+    alpha = case.get("alpha")
+    if alpha is None:
+        st = "ANone"
+    elif isinstance(alpha, str):
+        st = "ABg None" if alpha == "#" else "ABg (Some (%d, %d, %d))" % tuple(int(alpha[i:i + 2], 16) for i in (1, 3, 5))
+    else:
+        st = f"AThreshold {round(float(alpha) * 255)}"
+    bg = case.get("term_bg")
+    bgt = f"(Some {R.rgb_t(bg)})" if bg else "None"
+    src = core.coq_list(res["src"], lambda p: f"{{| s_rgb := {R.rgb_t(p[:3])}; s_a := {p[3]} |}}")
+    obs = core.coq_list(list(zip(res["rgb"], res["a"])), lambda o: f"({R.rgb_t(o[0])}, {o[1]})")
+    return (f"{{| rd_has_alpha := {R.b(case['img']['mode'] == 'RGBA')}; rd_set := {st}; rd_termbg := {bgt}; "
+            f"rd_src := {src}; rd_obs := {obs}; rd_obs_amode := {R.b(res.get('alpha_mode', False))} |}}")
+
+
 def uniform_check(case, res):
     if case["img"].get("kind") != "uniform" or "rgb" not in res or "src" not in res:
         return None
@@ -126,8 +147,24 @@ def run(ctx):
             "runs_per_line_avg": 0}
     distinct = set()
     runs = cells = 0
+    # source pixels -> render data, judged inside Coq (model/RenderDataTie.v)
+    rd_idx = [i for i, c in enumerate(cases) if c.get("identity") and "src" in impl[i] and "rgb" in impl[i]
+              and len(impl[i]["src"]) == len(impl[i]["rgb"])]
+    rd_codes = {}
+    if rd_idx:
+        bad, errs = core.coq_shards("c02rd", RD_HEADER, [rd_term(cases[i], impl[i]) for i in rd_idx], "rdcase",
+                                    "rd_bad cases", shard=60)
+        errors += errs
+        rd_codes = {rd_idx[k]: code for k, code in bad}
+    hist["source_to_render_data_cases"] = len(rd_idx)
     for i, c in enumerate(cases):
         r = impl[i]
+        if rd_codes.get(i, 0) >= 2:
+            failures.append({"signature": core.sig(["identity", c["img"], c["cells"], c["alpha"], c.get("term_bg")]),
+                             "what": f"source pixels are not shown as the property demands (render-data check code {rd_codes[i]}): "
+                                     f"{identity_check(c, r)} — {R.describe(c)}", "replay": {"case": c}})
+        elif rd_codes.get(i, 0) == 1:
+            mismatches.append({"case": c, "code": 1, "explain": f"_get_render_data differs from RenderData.render_px: {identity_check(c, r)}"})
         hist["mode"][c["img"]["mode"]] = hist["mode"].get(c["img"]["mode"], 0) + 1
         hist["kind"][c["img"]["kind"]] = hist["kind"].get(c["img"]["kind"], 0) + 1
         hist["alpha"][repr(c["alpha"])[:6]] = hist["alpha"].get(repr(c["alpha"])[:6], 0) + 1
@@ -146,7 +183,7 @@ def run(ctx):
             failures.append({"signature": core.sig(["lex", lexerr[i][:60]]), "what": f"{lexerr[i]} — {R.describe(c)}",
                              "replay": {"case": c}})
             continue
-        for name, chk in (("identity", identity_check), ("uniform", uniform_check)):
+        for name, chk in (("uniform", uniform_check),):
             msg = chk(c, r)
             if msg:
                 failures.append({"signature": core.sig([name, c["img"], c["cells"], c["alpha"]]),
@@ -160,7 +197,9 @@ def run(ctx):
                                "explain": R.explain(c, r, "c02") if len(mismatches) < 3 else ""})
     hist["runs_per_line_avg"] = round(runs / max(1, sum(c["cells"][1] for c in cases)), 2)
     return {
-        "corr_name": "Block.render (model) == lexed BlockImage renders; Block.expect == cells shown by Term.exec",
+        "corr_name": "Block.render (model) == lexed BlockImage renders; Block.expect == cells shown by Term.exec; "
+                     "RenderData.render_px (model) == data returned by _get_render_data at render resolution, "
+                     "RenderData.src_expect (specification) == what those data show",
         "evaluations": len(cases),
         "distinct_nontrivial": len(distinct),
         "rule": "corpus (9 modes x 3 alpha settings + hand-made run/alpha/background cases) + random images generated for run "
